@@ -118,13 +118,13 @@ def harnesses(tier):
         hs.append(VecOpTwice(m, "T", 2))
     hs.append(VecOpTwice("sort", "f", 2))
     if tier == "quick":
-        for k in ["f", "i", "T", "b", "D"]:
+        for k in ["f", "i", "T", "b", "D", "td"]:
             for m in ("sort", "rank", "unique"):
                 hs.append(VecOp(m, k, 3))
         for m in ("sort", "rank", "unique"):
             hs.append(VecOp(m, "O", 2))
     else:
-        for k in ["f", "i", "T", "b", "D", "us", "U"]:
+        for k in ["f", "i", "T", "b", "D", "us", "U", "td"]:
             for m in ("sort", "rank", "unique"):
                 hs.append(VecOp(m, k, 4))
         for m in ("sort", "rank", "unique"):
